@@ -14,14 +14,19 @@ CHECK = {
                             "variance_history_wrapped", "variance_history_reset_mid_window", "variance_history_reset_then_data",
                             "ring_history_wrapped", "ring_history_reset_mid_window", "ring_history_reset_then_data",
                             "exh_average_history_reset_mid_window", "exh_variance_history_reset_mid_window",
-                            "exh_ring_history_reset_mid_window", "exh_ring_history_wrapped"],
+                            "exh_ring_history_reset_mid_window", "exh_ring_history_wrapped",
+                            "ring_append_aliasing_own_entry", "ring_append_permuting_expr_of_evicted_entry",
+                            "exh_ring_append_permuting_expr_of_evicted_entry"],
     "required_oracles": ["average.vs_exact_mean", "variance.vs_exact_unbiased", "availability.iff_window_full",
                          "ring.size_is_min_n_capacity", "ring.kth_most_recent"],
     "required_counters": ["average_updates", "average_resets", "variance_updates", "variance_resets",
-                          "ring_updates", "ring_resets", "exhaustive_sequences", "samples_generated"],
+                          "ring_updates", "ring_resets", "ring_alias_appends", "exhaustive_sequences", "samples_generated"],
     "rule": "case = one object (OnlineAverage W 1..64 | OnlineVariance W 2..64 | RingOfEigenVector capacity 1..16 over "
             "Vector2d/3d/4d/6d/2f/3f) driven through one generated history of update/reset (append/clear) of length 0..10W, "
-            "checked against the reference model after EVERY operation; precision in {1, .5, .25, .1, .01, 1e-3, 1e-4, 1e-5, "
+            "checked against the reference model after EVERY operation; 35 % of the appends on a non-empty ring pass an argument "
+            "that aliases the ring's own state -- ring[k] by reference or an unevaluated Eigen expression (reverse, cyclic shift, "
+            "-ring[k], ring[k]+ring[j], 2*ring[k], ring[k].reverse()+ring[j]), k = the oldest (evicted) entry 45 % of the time; "
+            "the model evaluates the expression on its own copy before the append; precision in {1, .5, .25, .1, .01, 1e-3, 1e-4, 1e-5, "
             "1e-6} (80 %) or {.2, .125, .05, .002, 2e-5, 5e-6}; object built by the (precision, W) constructor or by "
             "(precision) + setWindowSize(W); resets: none | Bernoulli 1/(0.5..4 W) | targeted at n_since_reset in "
             "{0, 1, W-1, W, W+1, 2W-1, 2W, 2W+1, random <= 3W} | bursts of consecutive resets; samples: dyadic (x*m exactly "
